@@ -96,6 +96,23 @@ class CallSurface(OpSurface):
         return i[0] == "OK" and m[0] == "OK" and ic.strict_same(i[1], m[1])
 
 
+class WarmCallSurface(CallSurface):
+    """history: the same text is first used as an IAM Action pattern (case-insensitive matching) in this process, then as the
+    policy value of a Like operator (case-sensitive matching)"""
+    name = "Statement(Action=[v]).get_expanded_action_list(); StatementCondition({op: {k: v}})(ctx)"
+
+    def impl(self, x):
+        def run():
+            from pycfmodel.model.resources.properties.statement import Statement
+            if isinstance(x["pol"], str):
+                try:
+                    Statement(Effect="Allow", Action=[x["pol"]], Resource="*").get_expanded_action_list()
+                except Exception:
+                    pass
+            return _sc().model_validate({x["op"]: {KEY: x["pol"]}})(ic.ctx_to_py(x["ctx"]))
+        return core.impl_call(run)
+
+
 class EvalSurface(OpSurface):
     name = "StatementCondition(**{op: {k: v}}).eval(ctx)"
 
@@ -110,8 +127,8 @@ class EvalSurface(OpSurface):
         return i[0] == "OK" and ic.strict_same(i[1], m[1])
 
 
-CALL, EVAL = CallSurface(), EvalSurface()
-SURFACES = {s.name: s for s in (CALL, EVAL)}
+CALL, EVAL, WARM = CallSurface(), EvalSurface(), WarmCallSurface()
+SURFACES = {s.name: s for s in (CALL, EVAL, WARM)}
 
 
 def prepare(rn):
@@ -338,6 +355,8 @@ def cases(rng, tier, shard, nshards):
     for k in range(n):
         op = BASE_OPS[(k + shard) % len(BASE_OPS)]
         x = gen_case(rng, op)
+        if "Like" in x["op"] and isinstance(x.get("pol"), str) and k % 2:
+            yield WARM, x          # BEFORE the text is ever used by a Like operator in this process
         yield (CALL if k % 3 else EVAL), x
         if k % 7 == 0:
             # the negated operator on the very same operands (C11_negation_dual through the implementation)
